@@ -48,6 +48,10 @@ RULE = ("grammar-directed templates (nesting <= 4, DictLoader with extends chain
         "non-trivial = at least one directive nested in another or a loader with >= 2 files, or a ParseError; "
         "distinct by canonical JSON of the case")
 EXHAUSTIVE = {"quick": False, "thorough": False}
+CLAUSE_CAVEATS = [
+    'parse_error_line only bounds the reported line to a line of the template; that it is the line of the offending directive is proved for unterminated constructs (unterminated_error_line) and decided by the fault-injection tie for the other 20 error kinds',
+    'interp_matches_gen_structure_partial covers text, expressions, raw, if/elif/else, for, set, break, continue; apply, block/extends/include, while, try, import are tie-only',
+]
 CLAUSES = {
     "generating yields the output a direct interpretation defines":
         "tie: Lean Gen == Template.code line by line (stream i) and Spec.render (Interp) == Template.generate() (stream ii); "
